@@ -67,7 +67,7 @@ def connection(draw):
         cfg["inject_after_starttls"] = draw(st.sampled_from([["LOGIN"], ["PLAIN"], ["PLAIN", "LOGIN"], ["DIGEST-MD5"], []]))
     faults = []
     for verb in (b"GREETING", b"STARTTLS", b"TLSGREETING", b"AUTHENTICATE", b"AUTHVERDICT"):
-        k = draw(st.sampled_from(KINDS + [None, None, None]))
+        k = draw(st.sampled_from(KINDS + [None, None, None] + (["LOOKALIKE"] if verb in (b"STARTTLS", b"AUTHENTICATE") else [])))
         if k:
             faults.append((verb.decode(), 0, k))
     if draw(st.integers(0, 3)) == 0:
